@@ -187,7 +187,11 @@ func (r *runner) judge(t *testing.T, sc *world.Scenario, count bool) []oracle.Vi
 		r.stats.Failed = true
 		r.stats.Violations = bad
 		r.stats.LastFail = r.path("lastfail.json")
-		_ = os.WriteFile(r.stats.LastFail, sc.JSON(), 0o644)
+		out := sc
+		if res.Replay != nil {
+			out = res.Replay
+		}
+		_ = os.WriteFile(r.stats.LastFail, out.JSON(), 0o644)
 		r.flush()
 	}
 	return bad
